@@ -5,7 +5,7 @@ From stdpp Require Import gmap.
 From Coq Require Import ZArith Lia.
 From V Require Import Base.Res Base.ResLemmas Sched.LedgerModel Sched.StmtModel Sched.GangModel
   Sched.LedgerInvP Sched.LedgerInv Sched.LedgerLemmasA Sched.LedgerLemmasJob Sched.LedgerLemmasNode
-  Sched.LedgerLemmasSess Sched.LedgerLemmasSk Sched.LedgerLemmasTxn Sched.LedgerLemmasSound C07.Example.
+  Sched.LedgerLemmasSess Sched.LedgerLemmasSk Sched.LedgerLemmasTxn Sched.LedgerLemmasTxnN Sched.LedgerLemmasSound C07.Example.
 Open Scope Z_scope.
 
 Global Instance task_eq_dec : EqDecision task.
@@ -131,3 +131,42 @@ Proof.
   { rewrite lg_undo. change s1 with (fst (s1, ROk)). rewrite <- Hplace. apply lg_place. }
   unfold lg in Hlg. inversion Hlg. auto.
 Qed.
+
+(* ---------- the n-operation Discard theorem is not vacuous ---------- *)
+Definition evictable_withb (s : sess) (p c : task) (nid : positive) : bool :=
+  bool_decide (heap s !! t_id p = Some p) &&
+  (bool_decide (t_status p = Running) || bool_decide (t_status p = Bound)) &&
+  bool_decide (t_node p = Some nid) && bool_decide (t_id c = t_id p) && bool_decide (t_job c = t_job p) &&
+  bool_decide (t_sub c = t_sub p) && bool_decide (hview c = hview p) && jknownb s p &&
+  bool_decide (nvcopy (nv s) nid (t_id p) = Some (hview p)) &&
+  negb (bool_decide (sc (default empty_res (hshare s !! t_job p)) = None)).
+Lemma evictable_withb_sound s p c nid : evictable_withb s p c nid = true -> evictable_with s p c nid.
+Proof.
+  unfold evictable_withb, evictable_with.
+  rewrite !andb_true_iff, orb_true_iff, !bool_decide_eq_true, negb_true_iff, bool_decide_eq_false.
+  intros (((((((((H1 & H2) & H3) & H4) & H5) & H6) & H7) & H8) & H9) & H10).
+  repeat (split; [assumption|]). split; [apply jknownb_sound, H8|]. split; [exact H9|left; exact H10].
+Qed.
+
+Definition ex_copy (nid i : positive) : task := default (ex_task i) (ncopy ex_sess nid i).
+Definition ex_txn : list txop := [TPlace KAllocate 1 1; TPlace KPipeline 4 2; TEvict false 2; TEvict true 3].
+
+Lemma ex_txn_pre :
+  Forall (tx_pre ex_sess) ex_txn /\ NoDup (map tx_tid ex_txn) /\ default [] (stmts ex_sess !! 1%positive) = [].
+Proof.
+  split; [|split; [|reflexivity]].
+  - repeat constructor.
+    + discriminate.
+    + exists (ex_task 1). split; [reflexivity|]. apply placeableb_sound. vm_compute. reflexivity.
+    + discriminate.
+    + exists (ex_task 4). split; [reflexivity|]. apply placeableb_sound. vm_compute. reflexivity.
+    + exists (ex_task 2), 1%positive. split; [reflexivity|]. apply evictable_withb_sound. vm_compute. reflexivity.
+    + exists (ex_task 3), 2%positive, (ex_copy 2 3). split; [reflexivity|].
+      split; [apply (bool_decide_unpack _); vm_compute; exact I|]. apply evictable_withb_sound. vm_compute. reflexivity.
+  - apply (bool_decide_unpack _). vm_compute. exact I.
+Qed.
+
+Lemma ex_txn_all_recorded :
+  map snd (map (fun k => step ex_eps (run ex_eps ex_sess (map (tx_op 1) (firstn k ex_txn))) (tx_op 1 (nth k ex_txn (TEvict false 1)))) [0; 1; 2; 3]%nat)
+  = [ROk; ROk; ROk; ROk].
+Proof. vm_compute. reflexivity. Qed.
